@@ -35,6 +35,13 @@ func mk(name string, size int, salt byte, tdx bool) *Image {
 	for i := 0; i < 64; i++ {
 		b[0x400+i] = salt + byte(i)
 	}
+	if tdx {
+		// the first 0x20000 bytes of the 2 MiB layout are the configuration volume, which TDX does
+		// not extend into MRTD; salt the boot firmware volume too
+		for i := 0; i < 64; i++ {
+			b[0x30000+i] = salt + byte(i)
+		}
+	}
 	return &Image{Name: name, Bytes: b, Digest: sha512.Sum384(b), TDX: tdx}
 }
 
